@@ -219,6 +219,9 @@ def execute(plan, ctx):
         pre_dtype = np.dtype(a.dtype)
         pre_total = float(a.total)
         pre_miss = sum(x for x in missed_tuple(a) if not math.isnan(x))
+        # missed counters that are already NaN/inf (unknown after gaps, overflowed by a narrowing the statement
+        # does not cover) make the conservation of an entered weight unobservable: no truncation verdict then
+        miss_ok = all(math.isfinite(x) for x in missed_tuple(a)) or a.keep_missed is False
         if o == "fill":
             v = entries[op["i"] % len(entries)]
             w = op["w"]
@@ -239,7 +242,7 @@ def execute(plan, ctx):
             ww = 1 if w is None else w
             got = float(a.total) + sum(x for x in missed_tuple(a) if not math.isnan(x))
             want = pre_total + pre_miss + ww
-            if math.isfinite(want) and not abs(got - want) <= 8 * eps_of(a.dtype, pre_dtype) * (abs(want) + 1):
+            if miss_ok and post_miss_ok(a) and math.isfinite(want) and not abs(got - want) <= 8 * eps_of(a.dtype, pre_dtype) * (abs(want) + 1):
                 ctx.violation("C13/no-truncation", f"C13/fill-truncated/{pre_dtype}",
                               f"fill(weight={w!r}) on dtype {pre_dtype}: total+missed went from {pre_total + pre_miss!r} "
                               f"to {got!r} (dtype now {a.dtype}); the weight was not fully recorded")
@@ -271,7 +274,7 @@ def execute(plan, ctx):
                               f"fill_n(weights={wk}) on dtype {pre_dtype} gave dtype {a.dtype}")
             got = float(a.total) + sum(x for x in missed_tuple(a) if not math.isnan(x))
             want = pre_total + pre_miss + wsum
-            if math.isfinite(want) and not abs(got - want) <= 8 * eps_of(a.dtype, pre_dtype) * (abs(want) + 1) * max(n, 1):
+            if miss_ok and post_miss_ok(a) and math.isfinite(want) and not abs(got - want) <= 8 * eps_of(a.dtype, pre_dtype) * (abs(want) + 1) * max(n, 1):
                 ctx.violation("C13/no-truncation", f"C13/fill_n-truncated/{pre_dtype}/w={wk}",
                               f"fill_n(weights={wk}, sum {wsum!r}) on dtype {pre_dtype}: total+missed went from "
                               f"{pre_total + pre_miss!r} to {got!r} (dtype now {a.dtype})")
@@ -427,6 +430,10 @@ def execute(plan, ctx):
                                   f"refused dtype change {pre_dtype} -> {to} ({res!r}) changed {d}")
     if changed:
         ctx.nontrivial += 1
+
+
+def post_miss_ok(h):
+    return all(math.isfinite(x) for x in missed_tuple(h)) or h.keep_missed is False
 
 
 def prepare(h, prep, entries, ndim):
